@@ -50,8 +50,8 @@ def msg_bytes(cid: str, variant: int = 0) -> bytes:
 
 def gen_history(rng: random.Random, n: int, *, ops: tuple[str, ...] = (
         'append', 'multiappend', 'store', 'copy', 'move', 'expunge',
-        'create', 'rename', 'subscribe', 'check', 'unsubscribe')) \
-        -> list[dict[str, Any]]:
+        'create', 'rename', 'subscribe', 'check', 'unsubscribe'),
+        must: tuple[str, ...] = ()) -> list[dict[str, Any]]:
     """Operations refer to messages by content id; UIDs are resolved at run
     time from what was acknowledged."""
     hist: list[dict[str, Any]] = []
@@ -59,7 +59,8 @@ def gen_history(rng: random.Random, n: int, *, ops: tuple[str, ...] = (
     known: dict[str, list[str]] = {'INBOX': []}
     ncid = 0
     # always start with something to work on
-    plan = ['append', 'append'] + [rng.choice(ops) for _ in range(n)]
+    plan = ['append', 'append'] + list(must) + \
+        [rng.choice(ops) for _ in range(n)]
     for op in plan:
         box = rng.choice(boxes)
         if op == 'append' or (op in ('store', 'copy', 'move', 'expunge')
